@@ -330,6 +330,8 @@ pub struct World {
     client_task: Option<tokio::task::JoinHandle<()>>,
     pub epoch: Instant,
     pub now_ms: u64,
+    /// every message the server sent to a connected worker since the last `take_sent`
+    pub sent: Vec<(u32, ToWorkerMessage)>,
     _tmp: tempfile::TempDir,
 }
 
@@ -404,6 +406,7 @@ impl World {
             client_task: Some(client_task),
             epoch: Instant::now(),
             now_ms: 0,
+            sent: Vec::new(),
             _tmp: tmp,
         }
     }
@@ -451,6 +454,7 @@ impl World {
     pub fn pump_server_messages(&mut self) {
         for (id, w) in self.workers.iter_mut() {
             for m in self.server.drain_messages(WorkerId::new(*id)) {
+                self.sent.push((*id, clone_to_worker(&m)));
                 w.to_worker.push_back(m);
             }
         }
@@ -552,6 +556,10 @@ impl World {
         self.workers.get(&id).map(|w| w.vw.snapshot())
     }
 
+    pub fn take_sent(&mut self) -> Vec<(u32, ToWorkerMessage)> {
+        std::mem::take(&mut self.sent)
+    }
+
     pub fn take_callbacks(&mut self) -> Vec<Callback> {
         std::mem::take(&mut *self.callbacks.borrow_mut())
     }
@@ -561,7 +569,7 @@ impl World {
     }
 }
 
-fn clone_to_worker(m: &ToWorkerMessage) -> ToWorkerMessage {
+pub fn clone_to_worker(m: &ToWorkerMessage) -> ToWorkerMessage {
     let data = tako::comm::serialize(m).unwrap();
     tako::comm::deserialize(&data).unwrap()
 }
